@@ -52,7 +52,9 @@ pub fn pool_configs() -> Vec<(String, BuilderConfig)> {
     let mut v = vec![];
     for kind in 1u8..6 {
         let mut c = BuilderConfig::minimal("poolpkg");
-        c.compression = Comp { kind, level: None };
+        // low levels: the default levels (xz 9, zstd 19) cost hundreds of MB of encoder memory,
+        // and the pool is rebuilt in every worker process
+        c.compression = Comp { kind, level: if kind == 1 { None } else { Some(1) } };
         c.source_date = Some(1_600_000_000);
         v.push((format!("built-{}-nofiles", c.compression.name()), c.clone()));
         c.files = vec![
